@@ -144,7 +144,23 @@ def rule_auth(ctx):
                 if isinstance(n, ast.Call) and isinstance(n.func, ast.Attribute) and is_table(n.func.value, mm) \
                         and n.func.attr in ("pop", "clear", "update", "setdefault", "popitem", "__setitem__"):
                     writers.append((qual if mm.name == "server" else f"{mm.name}.{qual}", n))
-    bad = [w for w in writers if w[0] != "login_request"]
+    def reach(root):
+        """functions of server.py reachable from a handler through direct calls"""
+        seen, todo = {root}, [root]
+        while todo:
+            f_ = m.functions.get(todo.pop())
+            if f_ is None:
+                continue
+            for c in ast.walk(f_):
+                if isinstance(c, ast.Call) and isinstance(c.func, ast.Name) and c.func.id in m.functions and c.func.id not in seen:
+                    seen.add(c.func.id)
+                    todo.append(c.func.id)
+        return seen
+
+    login_side = reach("login_request")
+    other_side = set().union(*[reach(h) for h in m.functions if h.endswith("_request") and h != "login_request"]) if m.functions else set()
+    # a writer belongs to the login handler: the handler itself or a helper only it reaches
+    bad = [w for w in writers if not (w[0] in login_side and w[0] not in other_side)]
     ctx.ob("C17.a", "the session table is written only by the login handler", not bad and bool(writers), m.path)
     for q, n in bad:
         ctx.violation("C17.a", "server", q, n, m.loc(n), f"`{q}` writes the session table: a query/refused request must touch no session")
